@@ -168,11 +168,15 @@ func VerifyProof(root, key *felt.Felt, proof *ProofNodeSet, hash crypto.HashFn) 
 			}
 			expected = felt.Felt(*cld)
 		case *trienode.ValueNode:
-			// A value and a hash child hash identically; only accept a value at the leaf level
-			if keyBits.Len() != 0 {
-				return felt.Zero, errors.New("proof ends in a value node before the key is consumed")
+			// A value and a hash child hash identically: the Go type of a child is not covered by the
+			// parent's hash, only its felt is. Whether the felt is the leaf's value or the hash of the
+			// next node is decided by the key, as for a hash child: a node set is keyed by hash, so of
+			// two nodes with equal children felts (two sibling leaves holding the hashes of two sibling
+			// subtrees) it keeps one, whichever child types that one has
+			if keyBits.Len() == 0 {
+				return felt.Felt(*cld), nil
 			}
-			return felt.Felt(*cld), nil
+			expected = felt.Felt(*cld)
 		default:
 			return felt.Zero, fmt.Errorf("unexpected %T below a proof node", cld)
 		}
